@@ -14,7 +14,7 @@ raw — history of `Repository.LoadRaw` calls on one handle:
   endload
 conc — concurrent LoadRaw of one file: setup <hex be> <cell label>, good…, res…*, after
 blob — LoadBlob of a tree blob from a cached pack:
-  blob <length> <offset> <pack length>
+  blob <length> <offset> <pack length> <auto|cacheable> <tree-pack|mixed-pack-tree-blob|mixed-pack-data-blob>
   bload <be intact|deleted> <cell label> <cell present> <long enough> <range intact>
   res ok <plaintext equal 0/1> | res err | res panic ; after pack|other|absent ; endload
 -/
@@ -212,6 +212,7 @@ def handleBlob (c : Case) : Verdict :=
   | none => .differ "protocol" "no blob record"
   | some br =>
     let length := (br.getD 1 "0").toNat!; let off := (br.getD 2 "0").toNat!; let plen := (br.getD 3 "0").toNat!
+    let bk : Kind := if br.getD 4 "auto" == "cacheable" then .cacheable else .autoCached
     let pack : Bytes := List.replicate plen 1
     let verify (b : Bytes) : Bool := b == slice pack length off
     let step (acc : S × Option Verdict × List String × Option (Array String) × Option (Array String) × Option String) (r : Array String) :=
@@ -239,7 +240,7 @@ def handleBlob (c : Case) : Verdict :=
           else if !implOk && be.isSome && !s.forgotten then
             (s, some (.specfalse "C38:blob:healthy-pack-not-loaded-despite-retry" s!"{ld}"), lbl, none, none, none)
           else
-            let (s', mr) := loadBlob1 verify .autoCached length off {} before
+            let (s', mr) := loadBlob1 verify bk length off {} before
             let modelOk := match mr with | .ok _ => true | _ => false
             let mAfter := match s'.cell with | none => "absent" | some cc => if cc == pack then "pack" else "other"
             if modelOk != implOk then (s, some (.differ "blob-result" s!"before={ld} forgotten={s.forgotten} model={repr (resClass mr)} impl={rs}"), lbl, none, none, none)
@@ -251,7 +252,7 @@ def handleBlob (c : Case) : Verdict :=
     let (_, v, lbl, _, _, _) := c.recs.foldl step (({ be := none, cell := none, forgotten := false } : S), none, [], none, none, none)
     match v with
     | some v => v
-    | none => .agree true (("blob" :: lbl).eraseDups)
+    | none => .agree true (("blob" :: s!"blob-{br.getD 5 "tree-pack"}" :: lbl).eraseDups)
 
 def handle (c : Case) : Verdict :=
   match c.stream with
